@@ -21,7 +21,9 @@ def schedules(tier, seed):
     rnd = __import__("random").Random(seed)
     s = ["every=1,skip=%d,max=2500" % rnd.randrange(0, 6000), "every=1,skip=%d,max=2500" % rnd.randrange(6000, 30000),
          "every=5,phase=%d" % (seed % 5), "every=11,phase=%d" % (seed % 11),
-         "seed=%d,p=6" % seed, "every=64,phase=%d" % (seed % 64)]
+         "seed=%d,p=6" % seed, "every=64,phase=%d" % (seed % 64),
+         # a collection at each of the allocations that follow a large allocation (stack / vector / string / table growth)
+         "afterbig=4,bigsize=2048", "afterbig=12,bigsize=512"]
     if tier == "thorough":
         s += ["every=1", "every=2", "every=2,phase=1"]
         s += ["every=3,phase=%d" % ((seed + 1) % 3), "every=3,phase=%d" % ((seed + 2) % 3)]
